@@ -56,7 +56,13 @@ def gen_case(rng, i):
     else:
         sizes = None
     n = rng.randint(6, 90) if not static else rng.randint(40, 250)
+    if kind == "DRR" and rng.random() < 0.04:
+        sizes = [70000, 1000, 200000]           # "whatever the packet sizes": far beyond any quantum (and beyond 65535 bytes)
     case = vs.gen_case(rng, kind, flavour=flavour, n=n, static=static, nflows=rng.randint(2, 6), sizes=sizes)
+    # (arrivals that land between the scheduler's pick and the start of the transmission inside one instant are left
+    # to C13/C14: the visit / credit automata of this check would need the pick instant, which the boundary cannot see)
+    for a in case["arrivals"]:
+        a.pop("late", None)
     return case
 
 
@@ -211,7 +217,7 @@ def drr_rule(run, stats, bad):
                 explained = False
                 why = None
                 for r_a in ra:
-                    for m in range(0, 40):
+                    for m in range(0, 40 + int(Lmax // 1500) + 2):          # (a head far beyond every quantum needs that many rounds)
                         ok = True
                         for x in order:
                             if a == b:
